@@ -616,3 +616,32 @@ def test_wave7_hybrid_side_findings():
         _depends_on = [Dep7]
 
     assert [c.__name__ for c in sort_classes([S7])] == ["Dep7Data", "S7"]
+
+
+def test_c11_negative_explicit_offset_refused():
+    buf = ctx.new_buffer(64)
+    a = xo.Int64[8]([1, 2, 3, 4, 5, 6, 7, 8], _buffer=buf)
+    with pytest.raises(ValueError):
+        xo.Int64[1]([99], _buffer=buf, _offset=-16)
+    assert list(a.to_nparray()) == [1, 2, 3, 4, 5, 6, 7, 8]
+
+
+def test_c18_rebinding_to_the_part_nested_first():
+    class Leaf8(xo.HybridClass):
+        _xofields = {"x": xo.Int64}
+
+    class Box8(xo.HybridClass):
+        _xofields = {"leaf": Leaf8, "y": xo.Int64}
+
+    class U8(xo.UnionRef):
+        _reftypes = (Leaf8._XoStruct, Box8._XoStruct)
+
+    class Holder8(xo.HybridClass):
+        _xofields = {"u": U8}
+
+    buf = ctx.new_buffer(256)
+    box = Box8(leaf={"x": 5}, y=6, _buffer=buf)
+    h = Holder8(_buffer=buf)
+    h.u = box
+    h.u = box.leaf
+    assert type(h._xobject.u).__name__ == "Leaf8Data" and type(h.u).__name__ == "Leaf8"
